@@ -1,6 +1,6 @@
 import GrogModel.Drv.Proto
 import GrogModel.Loader
--- import GrogModel.Lock
+import GrogModel.Lock
 open Lean
 
 namespace Grog.Drv.LockLoad
@@ -199,8 +199,105 @@ def graphH : Handler := fun j => do
     | .error e => pure (Json.mkObj [("err", jErr e), ("stage", "merge")])
     | .ok ns => pure (Json.mkObj [("err", Json.null), ("nodes", Json.arr (ns.map jNode).toArray)])
 
+/-! ### lock protocol -/
+
+def evOfJson (j : Json) : Except String Lock.Ev := do
+  let a ← j.getArr?
+  match a.toList with
+  | [k, i] =>
+    let i ← i.getNat?
+    match k.getStr? with
+    | .ok "s" => pure (.step i)
+    | .ok "c" => pure (.crash i)
+    | .ok "u" => pure (.unlock i)
+    | _ => throw "event kind s|c|u expected"
+  | _ => throw "event [kind, i] expected"
+
+def range (n : Nat) : List Nat := List.range n
+
+def curSnap (n : Nat) (s : Lock.State) (ok : Bool) : Json :=
+  Json.mkObj [("ok", Json.bool ok),
+    ("labels", Json.arr ((range n).map (fun i => Json.str (s.pc i).label)).toArray),
+    ("path", Json.bool s.path.isSome),
+    ("crit", Json.arr (((range n).filter (fun i => (s.pc i).inCritical)).map (fun (i : Nat) => toJson i)).toArray)]
+
+def v0Snap (n : Nat) (s : Lock.V0.State) (ok : Bool) : Json :=
+  Json.mkObj [("ok", Json.bool ok),
+    ("labels", Json.arr ((range n).map (fun i => Json.str (s.pcs i).label)).toArray),
+    ("path", Json.bool s.path.isSome),
+    ("crit", Json.arr (((range n).filter (fun i => s.pcs i = .holding || s.pcs i = .unlocking)).map (fun (i : Nat) => toJson i)).toArray)]
+
+def v0Pre (j : Json) : Option Lock.V0.Content :=
+  match j.getObjValAs? String "pre" with
+  | .ok "empty" => some .empty
+  | .ok "garbage" => some .garbage
+  | .ok "deadpid" => some (.pid 1000000)
+  | _ => none
+
+def curPre (j : Json) : Bool :=
+  match j.getObjValAs? String "pre" with
+  | .ok "none" => false
+  | .ok _ => true
+  | .error _ => false
+
+/-- {"op":"lock.run","proto":"cur"|"v0","n":k,"pre":"none"|"empty"|"garbage"|"deadpid","events":[["s",i]..]}
+    → {"init":snap,"steps":[snap..]}; an event that is not enabled gets ok=false and is skipped. -/
+def lockRunH : Handler := fun j => do
+  let n ← getNat j "n"
+  let evs ← (← getArr j "events").toList.mapM evOfJson
+  match j.getObjValAs? String "proto" with
+  | .ok "v0" =>
+    let s0 := Lock.V0.init n (v0Pre j)
+    let rec go (s : Lock.V0.State) : List Lock.Ev → List Json
+      | [] => []
+      | e :: es =>
+        match Lock.V0.step s e with
+        | some s' => v0Snap n s' true :: go s' es
+        | none => v0Snap n s false :: go s es
+    pure (Json.mkObj [("init", v0Snap n s0 true), ("steps", Json.arr (go s0 evs).toArray)])
+  | _ =>
+    let s0 := Lock.init (curPre j)
+    let rec goCur (s : Lock.State) : List Lock.Ev → List Json
+      | [] => []
+      | e :: es =>
+        match Lock.step s e with
+        | some s' => curSnap n s' true :: goCur s' es
+        | none => curSnap n s false :: goCur s es
+    pure (Json.mkObj [("init", curSnap n s0 true), ("steps", Json.arr (goCur s0 evs).toArray)])
+
+/-- all maximal interleavings (as lists of process indices) of `n` contenders up to the point where every
+    one of them has acquired, is about to sleep (`time.After`) or `depth` calls have been made. -/
+def enumCur (n : Nat) : Nat → Lock.State → List (List Nat)
+  | 0, _ => [[]]
+  | d + 1, s =>
+    let en := (range n).filter (fun i => (s.pc i).label != "time.After" && (Lock.step s (.step i)).isSome)
+    if en.isEmpty then [[]]
+    else en.flatMap (fun i =>
+      match Lock.step s (.step i) with
+      | some s' => (enumCur n d s').map (i :: ·)
+      | none => [])
+
+def enumV0 (n : Nat) : Nat → Lock.V0.State → List (List Nat)
+  | 0, _ => [[]]
+  | d + 1, s =>
+    let en := (range n).filter (fun i => (s.pcs i).label != "time.After" && (Lock.V0.step s (.step i)).isSome)
+    if en.isEmpty then [[]]
+    else en.flatMap (fun i =>
+      match Lock.V0.step s (.step i) with
+      | some s' => (enumV0 n d s').map (i :: ·)
+      | none => [])
+
+/-- {"op":"lock.enum","proto":..,"n":k,"pre":..,"depth":d} → {"schedules":[[i,..],..]} -/
+def lockEnumH : Handler := fun j => do
+  let n ← getNat j "n"
+  let d ← getNat j "depth"
+  let scheds := match j.getObjValAs? String "proto" with
+    | .ok "v0" => enumV0 n d (Lock.V0.init n (v0Pre j))
+    | _ => enumCur n d (Lock.init (curPre j))
+  pure (Json.mkObj [("schedules", Json.arr (scheds.map (fun l => Json.arr (l.map (fun (i : Nat) => toJson i)).toArray)).toArray)])
+
 def handlers : List (String × Handler) :=
-  [("loader.mk.blocks", mkBlocksH), ("loader.mk", mkH), ("loader.script", scriptH),
+  [("lock.run", lockRunH), ("lock.enum", lockEnumH), ("loader.mk.blocks", mkBlocksH), ("loader.mk", mkH), ("loader.script", scriptH),
    ("loader.enrich", enrichH), ("loader.graph", graphH)]
 
 end Grog.Drv.LockLoad
